@@ -552,6 +552,25 @@ def mov(info, a, b):
 
 def xchg(info, a, b):
     e = []
+    if isinstance(a, ExprSlice) and isinstance(b, ExprSlice) \
+            and a.arg == b.arg and a != b:
+        # two sub-registers of one register (xchg al, ah): ExprAff rewrites an
+        # assignment to a slice into an assignment of the whole register, so
+        # two assignments would each keep the old value of the other slice
+        r = a.arg
+        if a.start < b.start: lo, hi = a, b
+        else:                 lo, hi = b, a
+        parts = []
+        if lo.start > 0:
+            parts.append((r[0:lo.start], 0, lo.start))
+        parts.append((hi, lo.start, lo.stop))
+        if hi.start > lo.stop:
+            parts.append((r[lo.stop:hi.start], lo.stop, hi.start))
+        parts.append((lo, hi.start, hi.stop))
+        if hi.stop < r.get_size():
+            parts.append((r[hi.stop:r.get_size()], hi.stop, r.get_size()))
+        e.append(ExprAff(r, ExprCompose(parts)))
+        return e
     e.append(ExprAff(a, b))
     e.append(ExprAff(b, a))
     return e
